@@ -1246,6 +1246,7 @@ class FuncContent:
     def __is_jmc_function(self, key_pos: int, token: Token) -> bool:
         if len(self.command) <= key_pos + 1 and (
             token.string in LOAD_ONCE_COMMANDS
+            or token.string in LOAD_ONLY_COMMANDS
             or token.string in EXECUTE_EXCLUDED_COMMANDS
             or token.string in JMC_COMMANDS
         ):
